@@ -247,6 +247,22 @@ example : merge (run (importFs f6Disk) f6Ops).disk [1, 0] = .none := by decide
 example : liveView (run (importFs f6Disk) f6Ops) [0, 1] = .none := by decide
 example : liveView (run (importFs f6Disk) f6Ops) [0] = .dir 0o700 0 := by decide
 
+/-! link (both copy-ups) and rmdir with upper whiteouts to clear, on the same disk: `link a/b c`
+    copies `a/b` up (creating the upper `a`), then a write through the new name is seen through
+    the old one; `unlink a/b; unlink c; rmdir a` goes through the window in which the cache is
+    invalid (the upper whiteout `a/b` is deleted before `a` is removed) and ends with `a` gone,
+    live and on disk. -/
+def lnOps : List Op := [.link [0, 1] [2], .write [2] .w 0 [9]]
+def rmOps : List Op := [.link [0, 1] [2], .unlink [0, 1], .unlink [2], .rmdir [0]]
+
+example : liveView (run (importFs f6Disk) lnOps) [2] = .file 0o644 [9] 0 := by decide
+example : liveView (run (importFs f6Disk) lnOps) [0, 1] = .file 0o644 [9] 0 := by decide
+example : merge (run (importFs f6Disk) lnOps).disk [1, 0] = .file 0o644 [9] 0 := by decide
+example : (run (importFs f6Disk) rmOps).disk.nodeAt 0 [0] = .whiteout := by decide
+example : liveView (run (importFs f6Disk) rmOps) [0] = .none := by decide
+example : merge (run (importFs f6Disk) rmOps).disk [1, 0] = .none := by decide
+example : liveView (importFs (run (importFs f6Disk) rmOps).disk) [0, 1] = .none := by decide
+
 end Examples
 
 end Fbr.Thm.C11
